@@ -3,6 +3,7 @@ package interp
 // Models of third-party functions that depend on randomness or the OS.
 
 import (
+	"fmt"
 	"go/types"
 )
 
@@ -49,4 +50,66 @@ func init() {
 	externals["math/rand.Seed"] = func(fr *frame, args []value) value { return nil }
 }
 
-var _ = types.Typ
+const backoffPkg = "github.com/cenkalti/backoff/v4"
+
+// backoff: Retry calls the operation until it returns nil, at most R times
+// (once for a StopBackOff policy), without sleeping.
+func init() {
+	newOf := func(name string) externalFn {
+		return func(fr *frame, args []value) value {
+			t := fr.i.P.lookupType(backoffPkg, name)
+			cell := zero(t)
+			return &cell
+		}
+	}
+	externals[backoffPkg+".NewExponentialBackOff"] = newOf("ExponentialBackOff")
+	externals[backoffPkg+".NewConstantBackOff"] = newOf("ConstantBackOff")
+	externals["(*"+backoffPkg+".ExponentialBackOff).Reset"] = func(fr *frame, args []value) value { return nil }
+	externals[backoffPkg+".WithContext"] = func(fr *frame, args []value) value { return args[0] }
+	externals[backoffPkg+".WithMaxRetries"] = func(fr *frame, args []value) value { return args[0] }
+	externals[backoffPkg+".Permanent"] = func(fr *frame, args []value) value {
+		i := fr.i
+		e := args[0].(iface)
+		if e.t == nil {
+			return iface{}
+		}
+		t := i.P.lookupType(backoffPkg, "PermanentError")
+		var cell value = structure{e}
+		return iface{t: types.NewPointer(t), v: &cell}
+	}
+	externals["(*"+backoffPkg+".PermanentError).Error"] = func(fr *frame, args []value) value {
+		e := (*args[0].(*value)).(structure)[0].(iface)
+		return errString(fr.i, fr, e)
+	}
+	externals["(*"+backoffPkg+".PermanentError).Unwrap"] = func(fr *frame, args []value) value {
+		return (*args[0].(*value)).(structure)[0]
+	}
+	retry := func(fr *frame, args []value) value {
+		i := fr.i
+		attempts := i.P.RetryAttempts
+		if attempts <= 0 {
+			attempts = 3
+		}
+		if b, ok := args[1].(iface); ok && b.t != nil {
+			if n := recvNamed(b.t); n != nil && n.Obj().Name() == "StopBackOff" {
+				attempts = 1
+			}
+		}
+		i.ps.res.Stubs[fmt.Sprintf("backoff.Retry(at most %d attempts, no sleeping)", attempts)] = true
+		var last iface
+		for k := 0; k < attempts; k++ {
+			r := call(i, fr, 0, args[0], nil)
+			e, _ := r.(iface)
+			if e.t == nil {
+				return iface{}
+			}
+			if n := recvNamed(e.t); n != nil && n.Obj().Name() == "PermanentError" && n.Obj().Pkg().Path() == backoffPkg {
+				return (*e.v.(*value)).(structure)[0]
+			}
+			last = e
+		}
+		return last
+	}
+	externals[backoffPkg+".Retry"] = retry
+	externals[backoffPkg+".RetryNotify"] = retry
+}
